@@ -3,6 +3,7 @@ import itertools
 from vlib.defs import Item, Variant, Field, DISABLED
 from vlib.run import Corpus
 from vlib import structs as T
+from vlib import gen as G
 from vlib import strings as S
 
 ID = "C05"
@@ -114,6 +115,12 @@ def build_corpus(tier, rng):
         else:
             it.attr_delims = [1] if form == "braces" else [2]
         defs.append((3, it, "attr-forms"))
+    # the options of OTHER derives around `disabled` (valued ascii_case_insensitive, default_with, default, props ..., before / after it,
+    # one list / several): the iterator still walks exactly the enabled variants
+    fo = [it for it in G.foreign_option_items(rng, 120 if thorough else 60, tag="R") if any(v.has("disabled") for v in it.variants)]
+    fo = [it for it in fo if sum(1 for v in it.variants if not v.has("disabled")) <= 4][: (24 if thorough else 8)]
+    for it in fo:
+        defs.append((sum(1 for v in it.variants if not v.has("disabled")), it, "foreign-options"))
     for n, it, fam in defs:
         k = c.add_def(it, family=fam, derives=["EnumIter"], n=n)
         c.add_q(k, "struct", ["EnumIter"], note="structure")
